@@ -58,6 +58,10 @@ class ConcreteOps:
     def not_none(self, a): return a is not None
     def true(self, c): return bool(c)
     def same(self, a, b): return a == b
+    def text(self, parts): return ''.join(chr(p) if isinstance(p, int) else p for p in parts)   # str pieces and character codes
+    def isdigit(self, c): return len(c) == 1 and c in '0123456789'
+    def nonfinite_seen(self, reset=False): return False
+    def digit(self, c): return int(c)
     def implies(self, p, q): return (not p) or q
     def and_(self, *cs): return all(bool(c) for c in cs)
     def or_(self, *cs): return any(bool(c) for c in cs)
@@ -76,9 +80,15 @@ class ConcreteOps:
     def pow(self, b, e):
         try: return b ** e
         except (ZeroDivisionError, OverflowError): return float('nan')
-    def sin(self, x): return math.sin(x)
-    def cos(self, x): return math.cos(x)
-    def tan(self, x): return math.tan(x)
+    def sin(self, x):
+        import numpy
+        return float(numpy.sin(float(x)))
+    def cos(self, x):
+        import numpy
+        return float(numpy.cos(float(x)))
+    def tan(self, x):
+        import numpy
+        return float(numpy.tan(float(x)))
     def sqrt(self, x):
         import numpy
         with numpy.errstate(all='ignore'): return float(numpy.sqrt(float(x)))
@@ -193,6 +203,37 @@ class SymOps:
     def same(self, a, b):
         return a == b
 
+    def text(self, parts):
+        from symx.symstr import SymStr
+        chars = []
+        for p in parts:
+            if isinstance(p, SymInt):
+                chars.append(p)
+            elif isinstance(p, int):
+                chars.append(chr(p))
+            else:
+                chars.extend(p)
+        return SymStr.mk(chars)
+
+    def isdigit(self, c):
+        from symx.symstr import SymStr
+        if isinstance(c, SymStr):
+            t = c.c[0].t
+            return len(c) == 1 and SymBool(z3.And(t >= 48, t <= 57))
+        return len(c) == 1 and c in '0123456789'
+
+    def nonfinite_seen(self, reset=False):
+        r = bool(getattr(core.ENG, '_nonfinite_flag', False))
+        if reset and core.ENG is not None:
+            core.ENG._nonfinite_flag = False
+        return r
+
+    def digit(self, c):
+        from symx.symstr import SymStr
+        if isinstance(c, SymStr):
+            return SymReal(z3.ToReal(c.c[0].t - 48))
+        return int(c)
+
     def _b(self, c):
         if isinstance(c, Claim):
             return c.t
@@ -220,27 +261,43 @@ class SymOps:
         return False
 
     def log10(self, x):
+        if not core.is_sym(x):
+            return ConcreteOps().log10(x)
         return SymReal(core.uf('log10', self._l(x)))
 
     def ln(self, x):
+        if not core.is_sym(x):
+            return ConcreteOps().ln(x)
         return SymReal(core.uf('log', self._l(x)))
 
     def exp(self, x):
+        if not core.is_sym(x):
+            return ConcreteOps().exp(x)
         return SymReal(core.uf('exp', self._l(x)))
 
     def pow(self, b, e):
+        if not core.is_sym(b) and not core.is_sym(e):
+            return ConcreteOps().pow(b, e)
         return SymReal(core.real_pow(self._l(b), self._l(e) if core.is_sym(e) else e))
 
     def sqrt(self, x):
+        if not core.is_sym(x):
+            return ConcreteOps().sqrt(x)
         return SymReal(core.uf('pow', self._l(x), z3.RealVal('1/2')))
 
     def sin(self, x):
+        if not core.is_sym(x):
+            return ConcreteOps().sin(x)
         return SymReal(core.uf('sin', self._l(x)))
 
     def cos(self, x):
+        if not core.is_sym(x):
+            return ConcreteOps().cos(x)
         return SymReal(core.uf('cos', self._l(x)))
 
     def tan(self, x):
+        if not core.is_sym(x):
+            return ConcreteOps().tan(x)
         return SymReal(core.uf('tan', self._l(x)))
 
     def ite(self, c, a, b):
@@ -309,7 +366,7 @@ class Scenario:
 
 
 def _to_py(val, kind):
-    if kind == 'int':
+    if kind in ('int', 'char'):
         return int(val)
     if kind == 'count':
         return max(1, int(round(float(val))))
@@ -366,6 +423,11 @@ def run_scenarios(scens, patches_cm, timeout_ms=10000, max_paths=4000, wall_s=12
                 eng.assume_global(z3.Real(name) >= 1)
             elif kind == 'int':
                 vars_[name] = SymInt(z3.Int(name))
+            elif kind == 'char':
+                # one printable ASCII character that is neither a letter nor '_' (see symstr.sym_float)
+                c = z3.Int(name)
+                vars_[name] = SymInt(c)
+                eng.assume_global(c >= 32, c <= 126, z3.Not(z3.And(c >= 65, c <= 90)), z3.Not(z3.And(c >= 97, c <= 122)), c != 95)
             else:
                 vars_[name] = SymBool(z3.Bool(name))
         v = V(**vars_, **{**scen.consts, **scen.sym_consts})
@@ -513,6 +575,9 @@ def _report(out, scen, vars_, model, label, reported, why):
     })
 
 
+CHAR_POOL = '0123456789' + '0123456789' + '..  (())**//++--<<>>==!!&&||,,' + '#$%:;?@[]^{}~"\'`\\'
+
+
 def _sample(scen, rnd, tries=60):
     pool = [0.5, 1.0, 2.0, 3.0, 0.25, 7.0, 1.5, 12.0, 0.125, 4.0]
     for _ in range(tries):
@@ -525,6 +590,8 @@ def _sample(scen, rnd, tries=60):
                 vals[name] = x
             elif kind == 'int':
                 vals[name] = rnd.randint(-3, 6)
+            elif kind == 'char':
+                vals[name] = ord(rnd.choice(CHAR_POOL))
             elif kind == 'count':
                 vals[name] = rnd.randint(1, 5)
             else:
